@@ -213,6 +213,29 @@ def run(ctx: Ctx):
                 i = int(np.nonzero(E_int != E_exp)[0][0])
                 ctx.violation("Taus.tau_energy", "explicit!=internal", "explicit random numbers give a different value than the internal generator for the same numbers",
                               {"version": v, "seed": seed, "index": i, "beta": float(bw[i]), "log_e_nu": float(lew[i]), "u": float(u_exp[i]), "internal": float(E_int[i]), "explicit": float(E_exp[i])})
+        # ---- the stage as a whole (exit-probability look-up first, then the energy sampler, on the caller's arrays): the tauEnergy it
+        # returns is tau_energy of the same events with the same random numbers — in particular 2^-23 E_nu above the table
+        seed = int(rng.integers(0, 2 ** 31))
+        bs_, ls_ = bw.copy(), lew.copy()
+        try:
+            np.random.seed(seed)
+            with np.errstate(all="ignore"):
+                st_out = tau(bs_, ls_)
+            np.random.seed(seed)
+            E_direct = make_taus(v).tau_energy(bw.copy(), lew.copy())
+            E_stage = np.asarray(st_out[2], dtype=np.float64)
+            ctx.case(("stage", v, seed), None, n=m); ctx.count("stage_events", m)
+            bad = np.nonzero(E_stage != E_direct)[0]
+            hi = bw > bmax
+            bad_hi = np.nonzero(hi & ~np.isclose(E_stage, np.finfo(np.float32).eps * 10 ** lew, rtol=1e-12, atol=0))[0]
+            if len(bad) or len(bad_hi):
+                k_ = int((bad_hi if len(bad_hi) else bad)[0])
+                ctx.violation("Taus.__call__", "stage-energy-differs-from-tau_energy",
+                              "the tau energy returned by the tau stage is not tau_energy of the same event and random numbers" + (" (an angle above the table does not get the negligible-energy value)" if len(bad_hi) else ""),
+                              {"version": v, "seed": seed, "beta_deg": float(np.degrees(bw[k_])), "log_e_nu": float(lew[k_]), "stage": float(E_stage[k_]),
+                               "tau_energy": float(E_direct[k_]), "events_differing": int(max(len(bad), len(bad_hi)))})
+        except Exception as ex:  # noqa
+            ctx.violation("Taus.__call__", "stage-raises", f"{type(ex).__name__}: {str(ex)[:120]}", {"version": v})
         # ---- batch sizes around the nditer buffer: identical to per-chunk evaluation
         for N in ((1, 8191, 8192, 8193, 16385) if ctx.thorough else (1, 8193)):
             le = rng.uniform(gE[0], gE[-1], N); b = rng.uniform(bmin, bmax, N); u = rng.uniform(0.01, 0.99, N)
